@@ -20,6 +20,10 @@ EXTENDS Integers, Sequences, FiniteSets, TLC
 
 Text(s) == [t |-> "text", s |-> s]
 Ref(kind, name) == [t |-> "ref", kind |-> kind, name |-> name]
+\* the one block of a template: in a template that extends it overrides the parent's; what it refers to is resolved
+\* relative to the template it is *written* in, wherever it ends up being rendered
+Block(items) == [t |-> "block", items |-> items]
+NoOv == [has |-> FALSE, p |-> <<>>, items |-> <<>>]
 Name(rooted, segs) == [rooted |-> rooted, segs |-> segs]
 
 RECURSIVE Clean(_, _)
@@ -41,7 +45,7 @@ Asked(loaders, path) == LET f == FirstWith(loaders, path) IN
 
 R(out, err, asked) == [out |-> out, err |-> err, asked |-> asked]
 
-RECURSIVE RenderItems(_, _, _, _, _), Compile(_, _, _, _), RenderFile(_, _, _)
+RECURSIVE RenderItems(_, _, _, _, _, _), Compile(_, _, _, _), RenderFile(_, _, _, _)
 
 \* Compile(loaders, path, content, fuel): what compiling a template fetches and whether it fails: static references are
 \* resolved and compiled at compile time (also in branches never executed)
@@ -49,7 +53,8 @@ Compile(loaders, path, items, fuel) ==
   IF items = <<>> \/ fuel = 0 THEN R(<<>>, IF fuel = 0 THEN "cycle" ELSE "", {})
   ELSE LET it == Head(items) IN
        LET here ==
-         IF it.t = "text" \/ it.kind \in {"lazy", "lazy_if"} THEN R(<<>>, "", {})
+         IF it.t = "block" THEN Compile(loaders, path, it.items, fuel)
+         ELSE IF it.t = "text" \/ it.kind \in {"lazy", "lazy_if"} THEN R(<<>>, "", {})
          ELSE LET p == Abs(path, it.name) IN
               LET f == FirstWith(loaders, p) IN
               IF f = 0 THEN R(<<>>, IF it.kind = "include_if" THEN "" ELSE "missing", Asked(loaders, p))
@@ -62,36 +67,42 @@ Compile(loaders, path, items, fuel) ==
 ExtendsOf(items) == LET S == {i \in 1..Len(items) : items[i].t = "ref" /\ items[i].kind = "extends"} IN
                     IF S = {} THEN 0 ELSE CHOOSE i \in S : TRUE
 \* rendering the (compiled) template at path p: its own items, or - if it extends - its parent's
-RenderFile(loaders, p, fuel) ==
+BlockOf(items) == LET S == {i \in 1..Len(items) : items[i].t = "block"} IN IF S = {} THEN 0 ELSE CHOOSE i \in S : TRUE
+\* ov: the overriding block of a more-derived template (with the path of the template it is written in), if any
+RenderFile(loaders, p, fuel, ov) ==
   LET items == loaders[FirstWith(loaders, p)][p] IN
   LET e == ExtendsOf(items) IN
+  LET b == BlockOf(items) IN
+  LET ov1 == IF ov.has THEN ov ELSE IF b # 0 THEN [has |-> TRUE, p |-> p, items |-> items[b].items] ELSE NoOv IN
   IF fuel = 0 THEN R(<<>>, "cycle", {})
-  ELSE IF e = 0 THEN RenderItems(loaders, p, items, R(<<>>, "", {}), fuel)
-  ELSE RenderFile(loaders, Abs(p, items[e].name), fuel - 1)
+  ELSE IF e = 0 THEN RenderItems(loaders, p, items, R(<<>>, "", {}), fuel, ov)
+  ELSE RenderFile(loaders, Abs(p, items[e].name), fuel - 1, ov1)
 
 \* execution of a compiled template's items
-RenderItems(loaders, path, items, acc, fuel) ==
+RenderItems(loaders, path, items, acc, fuel, ov) ==
   IF items = <<>> THEN acc
   ELSE IF acc.err # "" THEN acc
   ELSE LET it == Head(items) IN
        LET step ==
          CASE it.t = "text" -> R(<<it.s>>, "", {})
+           [] it.t = "block" -> IF ov.has THEN RenderItems(loaders, ov.p, ov.items, R(<<>>, "", {}), fuel, NoOv)
+                                ELSE RenderItems(loaders, path, it.items, R(<<>>, "", {}), fuel, NoOv)
            [] it.kind \in {"include", "include_if", "ssi_parsed"} ->
                 LET p == Abs(path, it.name) IN LET f == FirstWith(loaders, p) IN
-                IF f = 0 THEN R(<<>>, "", {}) ELSE RenderFile(loaders, p, fuel - 1)
+                IF f = 0 THEN R(<<>>, "", {}) ELSE RenderFile(loaders, p, fuel - 1, NoOv)
            [] it.kind \in {"lazy", "lazy_if"} ->
                 \* compiled when executed: fetch, compile (with everything it statically refers to), render
                 LET p == Abs(path, it.name) IN LET f == FirstWith(loaders, p) IN
                 IF f = 0 THEN R(<<>>, IF it.kind = "lazy_if" THEN "" ELSE "missing", Asked(loaders, p))
                 ELSE LET c == Compile(loaders, p, loaders[f][p], fuel - 1) IN
                      IF c.err # "" THEN R(<<>>, c.err, Asked(loaders, p) \cup c.asked)
-                     ELSE LET r == RenderFile(loaders, p, fuel - 1) IN
+                     ELSE LET r == RenderFile(loaders, p, fuel - 1, NoOv) IN
                           R(r.out, r.err, Asked(loaders, p) \cup c.asked \cup r.asked)
            [] it.kind = "ssi" ->
                 LET p == Abs(path, it.name) IN LET f == FirstWith(loaders, p) IN R(<<<<"RAW", f, p>>>>, "", {})
            [] it.kind = "import" -> R(<<>>, "", {})
            [] it.kind = "extends" -> R(<<>>, "", {})
-       IN RenderItems(loaders, path, Tail(items), R(acc.out \o step.out, step.err, acc.asked \cup step.asked), fuel)
+       IN RenderItems(loaders, path, Tail(items), R(acc.out \o step.out, step.err, acc.asked \cup step.asked), fuel, ov)
 
 \* FromFile(root) and Execute: [out, err, asked]
 Render(loaders, rootName, fuel) ==
@@ -101,7 +112,7 @@ Render(loaders, rootName, fuel) ==
   ELSE LET items == loaders[f][p] IN
        LET c == Compile(loaders, p, items, fuel) IN
        IF c.err # "" THEN R(<<>>, c.err, Asked(loaders, p) \cup c.asked)
-       ELSE LET r == RenderFile(loaders, p, fuel) IN
+       ELSE LET r == RenderFile(loaders, p, fuel, NoOv) IN
             R(r.out, r.err, Asked(loaders, p) \cup c.asked \cup r.asked)
 
 \* ---- properties of the definition
